@@ -93,12 +93,14 @@ def _is_pure_callable(c):
     return getattr(c, "__objclass__", None) is str and c.__name__ in _STR_METHODS
 
 
-def fold(node, env=None, resolver=None):
+def fold(node, env=None, resolver=None, call_hook=None):
     """
     :param env: dict name -> value
     :param resolver: callable(dotted attr chain list) -> value or raise Unknown
+    :param call_hook: callable(Call node, folded args, folded kwargs) -> value or raise Unknown; asked last,
+           for calls the folder has no rule for (ModuleEnv evaluates small package functions with it)
     """
-    env = env or {}
+    env = env if env is not None else {}
 
     def f(n):
         if isinstance(n, ast.Constant):
@@ -252,20 +254,20 @@ def fold(node, env=None, resolver=None):
                 sub.update(local)
                 if isinstance(n, ast.DictComp):
                     results.append(
-                        (fold(n.key, sub, resolver), fold(n.value, sub, resolver))
+                        (fold(n.key, sub, resolver, call_hook), fold(n.value, sub, resolver, call_hook))
                     )
                 else:
-                    results.append(fold(n.elt, sub, resolver))
+                    results.append(fold(n.elt, sub, resolver, call_hook))
                 return
             g = n.generators[i]
             sub = dict(env)
             sub.update(local)
-            for item in fold(g.iter, sub, resolver):
+            for item in fold(g.iter, sub, resolver, call_hook):
                 loc = dict(local)
                 _bind(g.target, item, loc)
                 sub2 = dict(env)
                 sub2.update(loc)
-                if all(fold(c, sub2, resolver) for c in g.ifs):
+                if all(fold(c, sub2, resolver, call_hook) for c in g.ifs):
                     rec(i + 1, loc)
 
         rec(0, {})
@@ -398,15 +400,17 @@ def fold(node, env=None, resolver=None):
                 return getattr(recv, name)(*args)
             if isinstance(recv, (list, tuple)) and name in ("index", "count"):
                 return getattr(recv, name)(*args)
+        if call_hook is not None:
+            return call_hook(n, args, kwargs)
         raise Unknown("call " + ast.unparse(n.func))
 
     return f(node)
 
 
-def try_fold(node, env=None, resolver=None, default=None):
+def try_fold(node, env=None, resolver=None, default=None, call_hook=None):
     """fold or default"""
     try:
-        return fold(node, env, resolver)
+        return fold(node, env, resolver, call_hook)
     except (Unknown, RecursionError):
         return default
     except Exception:  # value-level failure inside a folded builtin
@@ -483,6 +487,131 @@ class ModuleEnv(object):
 
         return res
 
+    MAX_CALL_DEPTH = 3
+
+    def _hook(self, m, depth=0):
+        """
+        call hook for expressions of module m: a call to a small function of the package is evaluated by
+        interpreting its body (assignments to locals, .update()/item stores on locals, foldable if/for,
+        one return) — a table built by `NAME = _build_table()` reads like the table built in place
+        """
+
+        def hook(call, args, kwargs):
+            q = self.index.callee(m, call, None)
+            h = self.index.funcs.get(q or "")
+            if h is None or h.mod.is_test or depth >= self.MAX_CALL_DEPTH or h.outer is not None:
+                raise Unknown("call " + ast.unparse(call.func))
+            if h.node.decorator_list or isinstance(h.node, ast.AsyncFunctionDef):
+                raise Unknown("call " + ast.unparse(call.func))
+            return self._apply(h, args, kwargs, depth + 1)
+
+        return hook
+
+    def _apply(self, h, args, kwargs, depth):
+        a = h.node.args
+        if a.vararg is not None or a.kwarg is not None:
+            raise Unknown("call " + h.qual)
+        pos = a.posonlyargs + a.args
+        if len(args) > len(pos):
+            raise Unknown("call " + h.qual)
+        local = {}
+        hook = self._hook(h.mod, depth)
+        res = self._resolver(h.mod, {})
+        for prm, v in zip(pos, args):
+            local[prm.arg] = v
+        for k, v in kwargs.items():
+            if k in local or k not in [x.arg for x in pos + a.kwonlyargs]:
+                raise Unknown("call " + h.qual)
+            local[k] = v
+        for prm, d in zip(pos[len(pos) - len(a.defaults):], a.defaults):
+            if prm.arg not in local:
+                local[prm.arg] = fold(d, None, res, hook)
+        for prm, d in zip(a.kwonlyargs, a.kw_defaults):
+            if prm.arg not in local and d is not None:
+                local[prm.arg] = fold(d, None, res, hook)
+        if any(x.arg not in local for x in pos + a.kwonlyargs):
+            raise Unknown("call " + h.qual)
+        res = self._resolver(h.mod, local)
+
+        class _Return(Exception):
+            def __init__(self, v):
+                self.v = v
+
+        def ev(e):
+            return fold(e, local, res, hook)
+
+        def store(t, v):
+            if isinstance(t, ast.Name):
+                local[t.id] = v
+            elif isinstance(t, (ast.Tuple, ast.List)):
+                vs = list(v)
+                if len(vs) != len(t.elts):
+                    raise Unknown("unpack")
+                for x, y in zip(t.elts, vs):
+                    store(x, y)
+            elif isinstance(t, ast.Subscript) and isinstance(t.value, ast.Name) and t.value.id in local:
+                try:
+                    local[t.value.id][ev(t.slice)] = v
+                except Unknown:
+                    raise
+                except Exception as e:
+                    raise Unknown(str(e))
+            else:
+                raise Unknown("store in " + h.qual)
+
+        budget = [20000]
+
+        def run(stmts):
+            for s in stmts:
+                budget[0] -= 1
+                if budget[0] < 0:
+                    raise Unknown("budget " + h.qual)
+                if isinstance(s, ast.Expr) and isinstance(s.value, ast.Constant):
+                    continue
+                if isinstance(s, ast.Pass):
+                    continue
+                if isinstance(s, ast.Return):
+                    raise _Return(None if s.value is None else ev(s.value))
+                if isinstance(s, ast.Assign):
+                    v = ev(s.value)
+                    for t in s.targets:
+                        store(t, v)
+                elif isinstance(s, ast.AnnAssign):
+                    if s.value is not None:
+                        store(s.target, ev(s.value))
+                elif isinstance(s, ast.If):
+                    run(s.body if ev(s.test) else s.orelse)
+                elif isinstance(s, ast.For) and not s.orelse:
+                    for item in ev(s.iter):
+                        store(s.target, item)
+                        run(s.body)
+                elif (
+                    isinstance(s, ast.Expr)
+                    and isinstance(s.value, ast.Call)
+                    and isinstance(s.value.func, ast.Attribute)
+                    and isinstance(s.value.func.value, ast.Name)
+                    and s.value.func.value.id in local
+                    and s.value.func.attr in ("update", "append", "extend", "add", "setdefault")
+                ):
+                    c = s.value
+                    recv = local[c.func.value.id]
+                    if not isinstance(recv, (dict, list, set)):
+                        raise Unknown("mutation in " + h.qual)
+                    try:
+                        getattr(recv, c.func.attr)(*[ev(x) for x in c.args], **{k.arg: ev(k.value) for k in c.keywords if k.arg})
+                    except Unknown:
+                        raise
+                    except Exception as e:
+                        raise Unknown(str(e))
+                else:
+                    raise Unknown("statement {} in {}".format(type(s).__name__, h.qual))
+
+        try:
+            run(h.node.body)
+        except _Return as r:
+            return r.v
+        return None
+
     def _compute(self, dotted):
         mm, _, nm = dotted.rpartition(".")
         m = self.index.modules.get(mm)
@@ -496,12 +625,13 @@ class ModuleEnv(object):
         val = _Opaque
         local = {}
         res = self._resolver(m, local)
+        hook = self._hook(m)
 
         def exec_stmts(stmts):
             nonlocal val
             for s in stmts:
                 if isinstance(s, ast.If):
-                    t = try_fold(s.test, None, res, _Opaque)
+                    t = try_fold(s.test, None, res, _Opaque, hook)
                     if t is _Opaque:
                         exec_stmts(s.body)
                         exec_stmts(s.orelse)
@@ -514,7 +644,7 @@ class ModuleEnv(object):
                     tg = s.targets if isinstance(s, ast.Assign) else [s.target]
                     for t in tg:
                         if isinstance(t, ast.Name) and t.id == nm:
-                            val = fold(s.value, None, res)
+                            val = fold(s.value, None, res, hook)
                             local[nm] = val
                         elif (
                             isinstance(t, ast.Subscript)
@@ -522,7 +652,7 @@ class ModuleEnv(object):
                             and t.value.id == nm
                             and val is not _Opaque
                         ):
-                            val[fold(t.slice, None, res)] = fold(s.value, None, res)
+                            val[fold(t.slice, None, res, hook)] = fold(s.value, None, res, hook)
                 elif isinstance(s, ast.Expr) and isinstance(s.value, ast.Call):
                     c = s.value
                     if (
@@ -533,9 +663,9 @@ class ModuleEnv(object):
                     ):
                         if c.func.attr == "update" and isinstance(val, dict):
                             for a in c.args:
-                                val.update(fold(a, None, res))
+                                val.update(fold(a, None, res, hook))
                             for k in c.keywords:
-                                val[k.arg] = fold(k.value, None, res)
+                                val[k.arg] = fold(k.value, None, res, hook)
                         elif c.func.attr in ("append", "add", "extend"):
                             raise Unknown("mutation of " + dotted)
 
@@ -547,4 +677,4 @@ class ModuleEnv(object):
     def in_module(self, m, node, extra=None):
         """fold an expression appearing in module m"""
         local = dict(extra or {})
-        return fold(node, local, self._resolver(m, local))
+        return fold(node, local, self._resolver(m, local), self._hook(m))
